@@ -374,6 +374,11 @@ func cmdCheck(args []string) int {
 				path := filepath.Join(replayDir, fmt.Sprintf("%s-%s-sample%d.json", j.Func, name, k))
 				writeReplayFile(path, id, j, interp.Failure{Kind: "sample", Tape: s.Tape})
 				ok, why := rp.replaySample(path)
+				if !ok && !strings.HasPrefix(why, "native build failed") {
+					// natively the harness runs real goroutines and timers: one retry before a
+					// disagreement is believed
+					ok, why = rp.replaySample(path)
+				}
 				rep.Replayed++
 				if ok {
 					rep.Agreed++
